@@ -78,6 +78,23 @@ pub assume_specification [Duration::as_secs] (d: &Duration) -> (r: u64)
     ensures r as nat == duration_nanos(*d) / 1000000000;
 pub assume_specification [Duration::as_millis] (d: &Duration) -> (r: u128)
     ensures r as nat == duration_nanos(*d) / 1000000;
+pub assume_specification [Duration::as_micros] (d: &Duration) -> (r: u128)
+    ensures r as nat == duration_nanos(*d) / 1000;
+pub assume_specification [Duration::as_nanos] (d: &Duration) -> (r: u128)
+    ensures r as nat == duration_nanos(*d);
+pub assume_specification [Duration::subsec_millis] (d: &Duration) -> (r: u32)
+    ensures r as nat == (duration_nanos(*d) % 1000000000) / 1000000;
+pub assume_specification [Duration::subsec_micros] (d: &Duration) -> (r: u32)
+    ensures r as nat == (duration_nanos(*d) % 1000000000) / 1000;
+pub assume_specification [Duration::subsec_nanos] (d: &Duration) -> (r: u32)
+    ensures r as nat == duration_nanos(*d) % 1000000000;
+pub assume_specification [Duration::from_micros] (us: u64) -> (r: Duration)
+    ensures duration_nanos(r) == us as nat * 1000;
+pub assume_specification [Duration::from_nanos] (ns: u64) -> (r: Duration)
+    ensures duration_nanos(r) == ns as nat;
+// Duration::new(secs, nanos): secs seconds plus nanos nanoseconds (nanos may carry over into seconds)
+pub assume_specification [Duration::new] (secs: u64, nanos: u32) -> (r: Duration)
+    ensures duration_nanos(r) == secs as nat * 1000000000 + nanos as nat;
 // core::cmp::max / min (std): by the type's total order - for Duration that is the order of lengths
 pub uninterp spec fn ord_ge<T>(a: T, b: T) -> bool;
 pub assume_specification<T: Ord> [core::cmp::max] (a: T, b: T) -> (r: T)
